@@ -39,6 +39,8 @@ def run(prog, chk):
         "A13.root-closed/write_root_svg:empty-root-attrs",
     }
     chk.obs = [o for o in chk.obs if not (o["key"] in drop)]
+    from props import strops
+    strops.check_for(prog, chk, "C05")  # A14.str-ops: how this property's strings are cut up is a reviewed, frozen inventory
 
 
 def normalisation_idempotent(prog, chk):
